@@ -1,6 +1,8 @@
 package main
 
 import (
+	"go/types"
+	"os"
 	"fmt"
 	"strings"
 
@@ -107,13 +109,18 @@ func checkC06(w *World, r *Report) {
 				"time argument originates from ctx.BlockTime(), pool argument from the stored pools", "the oracle is called with other arguments: time <- "+o0.String()+"; pool <- "+o1.String())
 		}
 		if n == 0 {
-			r.Bad("C06.sameoracle", funcName(fn)+": uses CalculateWithdrawable", w.Pos(fn.Pos()), "the withdrawable amount is not obtained from the shared oracle")
+			// an inlined copy of the oracle in the query is accepted when it passes the same table and keeps no
+			// state between pools
+			if strings.HasSuffix(anchor, "Keeper.VestingPools") && inlineOracleOK(w, r, fn) {
+				continue
+			}
+			r.Bad("C06.sameoracle", funcName(fn)+": uses CalculateWithdrawable", w.Pos(fn.Pos()), "the withdrawable amount is not obtained from the shared oracle (nor from an inlined copy that decides every pool on its own by the same table)")
 		}
 	}
 	// the query's Withdrawable field is the oracle's result
 	if q := w.Func("x/cfevesting/keeper.Keeper.VestingPools"); q != nil {
 		for _, fs := range FieldStores(q) {
-			if fs.Field == "Withdrawable" {
+			if fs.Field == "Withdrawable" && !inlineAccepted[q] {
 				o := w.Tracer().Origins(fs.Store.Val)
 				r.Check(o.HasCall("keeper.CalculateWithdrawable") || o.HasCall("VestingPool.GetCurrentlyLocked"), "C06.sameoracle", "VestingPools: response.Withdrawable <- oracle", w.Pos(fs.Store.Pos()), "sourced from CalculateWithdrawable", "the reported withdrawable amount is not the oracle's result: "+o.String())
 			}
@@ -197,4 +204,82 @@ func checkC06(w *World, r *Report) {
 		r.Check(good, "C06.outflows", construct+": recipient created as a continuous vesting account on the same path", pos,
 			"dominated by the success edge of newContinuousVestingAccount for the same address", "coins can leave the module account to an address that was not created as a vesting account on this path")
 	}
+}
+
+var inlineAccepted = map[*ssa.Function]bool{}
+
+// inlineOracleOK evaluates the time-lock table on a query that computes the withdrawable amount itself: under
+// every ordering of (block time, element.LockEnd) the value reported is zero resp. element.GetCurrentlyLocked(),
+// and the value is computed afresh for every pool (no phi of a loop header in its slice).
+func inlineOracleOK(w *World, r *Report, q *ssa.Function) bool {
+	term := func(v ssa.Value) string {
+		if isBlockTime(v) {
+			return "now"
+		}
+		if loadOfField(v, "LockEnd", nil) {
+			return "end"
+		}
+		return ""
+	}
+	var repVal ssa.Value
+	for _, fs := range FieldStores(q) {
+		if fs.Field == "Withdrawable" {
+			repVal = fs.Store.Val
+		}
+	}
+	if repVal == nil {
+		return false
+	}
+	if os.Getenv("C4E_DEBUG") != "" {
+		fmt.Println("DBG inline repVal", repVal, repVal.Type())
+	}
+	if c, ok := repVal.(*ssa.Call); ok && strings.HasSuffix(callName(c.Common()), ".String") && len(c.Common().Args) == 1 {
+		repVal = c.Common().Args[0]
+	}
+	headers := map[*ssa.BasicBlock]bool{}
+	for _, l := range rangeLoops(q) {
+		headers[l.Header] = true
+	}
+	for phi := range w.Tracer().Origins(repVal).Phis {
+		if !types.Identical(phi.Type(), repVal.Type()) {
+			continue // the range index and the like
+		}
+		if headers[phi.Block()] || inCycleHeader(phi) {
+			return false
+		}
+	}
+	for s := -1; s <= 1; s++ {
+		live := ReachUnder(q, OrderEval(term, twoTermCmp("now", "end", s), nil))
+		vals := live.LiveValues(repVal)
+		if os.Getenv("C4E_DEBUG") != "" {
+			fmt.Println("DBG inline s", s, vals)
+		}
+		if len(vals) == 0 {
+			return false
+		}
+		for _, v := range vals {
+			if s < 0 && !isZeroIntValue(v) {
+				return false
+			}
+			if s >= 0 {
+				if _, is := isCallTo(v, "VestingPool.GetCurrentlyLocked"); !is {
+					return false
+				}
+			}
+		}
+	}
+	inlineAccepted[q] = true
+	r.OK("C06.sameoracle", funcName(q)+": inlined oracle passes the table and is stateless across pools", w.Pos(q.Pos()), "zero before LockEnd, GetCurrentlyLocked() from it on, recomputed per pool")
+	return true
+}
+
+// inCycleHeader: the phi merges a value coming round a loop (one of its predecessors is dominated by its block).
+func inCycleHeader(phi *ssa.Phi) bool {
+	b := phi.Block()
+	for _, p := range b.Preds {
+		if b.Dominates(p) {
+			return true
+		}
+	}
+	return false
 }
